@@ -78,18 +78,33 @@ def oracle(case, res, extra):
             res.stats["point_outside_domain"] += 1
             continue
         asg = {n: int(v) for n, v in top.items() if n in set(cr.input_params)}
+        # the same assignment reached through different HISTORIES of evaluate calls: at once; in two numeric steps; or with one
+        # input first rewritten in terms of a fresh symbol (K := zz_h + d) and the numbers supplied afterwards
+        mode = rng.choice(["once", "once", "two-steps", "symbolic-first"]) if len(asg) >= 1 else "once"
         try:
-            evaluate(cr, asg)
+            if mode == "two-steps" and len(asg) >= 2:
+                ks = sorted(asg)
+                cut = rng.randint(1, len(ks) - 1)
+                evaluate(evaluate(cr, {k_: asg[k_] for k_ in ks[:cut]}).routine, {k_: asg[k_] for k_ in ks[cut:]})
+            elif mode == "symbolic-first":
+                k0 = rng.choice(sorted(asg))
+                d_ = rng.randint(0, 3)
+                step1 = evaluate(cr, {k0: f"zz_h + {d_}"}).routine
+                evaluate(step1, {**{k_: v_ for k_, v_ in asg.items() if k_ != k0}, "zz_h": asg[k0] - d_})
+            else:
+                mode = "once"
+                evaluate(cr, asg)
             raised = None
         except Exception as e:
             raised = e
         res.stats["assignments_checked"] += 1
+        res.stats["history_" + mode] += 1
         sides.add(t)
         if t == "mismatch":
             kinds |= {m[2] for m in mm}
             if raised is None:
                 res.violation("failing-input", f"size mismatch {mm[0]} is neither rejected by compilation nor by evaluation at this assignment",
-                              {"qref": case.qref, "assignments_in_order": list(asg.items())}, "no error", "BartiqCompilationError")
+                              {"qref": case.qref, "assignments_in_order": list(asg.items()), "history": mode}, "no error", "BartiqCompilationError")
                 return
             if not isinstance(raised, BartiqCompilationError):
                 res.violation("failing-input", f"size mismatch is reported as {type(raised).__name__}, not as a compilation error",
